@@ -1,4 +1,5 @@
 import Driver.Codec
+import Cirbo.Model.Wrappers
 import Cirbo.Model.Mutate2
 /-! history executor for the line protocol: a list of mutator calls applied in sequence -/
 open Lean Cirbo Driver
@@ -45,6 +46,18 @@ def applyStep (c : Circuit) (ctr : Nat) (step : Json) : Except String (Except St
   | "connect" => do
     let other ← parseCircuit a[1]!
     pure (lift (c.connectCircuit other (← strs a[2]!) (← strs a[3]!) (← a[4]!.getBool?) (← a[5]!.getStr?) (← a[6]!.getBool?)))
+  | "wrap" => do
+    let which ← a[1]!.getStr?
+    let other ← parseCircuit a[2]!
+    let name ← a[6]!.getStr?
+    let addP ← a[7]!.getBool?
+    match which with
+    | "connect_left" => pure (lift (c.connectLeft other (← strs a[3]!) name addP))
+    | "connect_right" => pure (lift (c.connectRight other (← strs a[4]!) name addP))
+    | "connect_inputs" => pure (lift (c.connectInputs other name addP))
+    | "extend" => pure (lift (c.extendCircuit other (← optStrs a[3]!) (← optStrs a[4]!) (← a[5]!.getBool?) name addP))
+    | "add" => pure (lift (c.addCircuit other name addP))
+    | _ => throw s!"unknown wrapper {which}"
   | "replace_subcircuit" => do
     let sub ← parseCircuit a[1]!
     pure (c.replaceSubcircuit sub (← pairs a[2]!) (← pairs a[3]!) ctr)
